@@ -1,6 +1,7 @@
 import BfeVerif.C31.Proofs
 /-!
   C31 — HPACK decoding conforms to RFC 7541.  Property theorems only.
+  (After the C31 fix: huffmanDecode carries upstream's nil / `sbits > 7` / EOS-prefix-padding checks.)
 -/
 namespace BfeVerif.C31
 open BfeVerif.C30
@@ -12,19 +13,11 @@ def Agrees (o : Outcome) (r : Except RErr (List HF × DynTab)) : Prop :=
   | .ok (fs, t) => o.err = none ∧ o.fields = fs ∧ o.tab = t
   | .error _ => o.err.isSome = true ∧ o.err ≠ some .crash
 
-/-- **C31 at full strength** (does NOT hold for the unchanged code, see the witnesses below):
-    for all settings and every way of delivering the block, the decoder agrees with RFC 7541. -/
+/-- **C31 at full strength**: for all settings and every way of delivering the block, the decoder agrees with
+    RFC 7541.  Proved below for every setting without SetMaxStringLength (`C31_conforms_partial`); with
+    SetMaxStringLength it does NOT hold (`C31_not_conforms`, the split-dependent guard of `Write`). -/
 def C31_Conforms (T : Tables) : Prop :=
   ∀ (c : Cfg) (chunks : List (List Nat)), Agrees (decodeChunks T c chunks) (rfcDecode T c chunks.flatten)
-
-theorem C31_not_conforms_of_crash (T : Tables) (c : Cfg) (chunks : List (List Nat))
-    (hc : (decodeChunks T c chunks).err = some .crash) : ¬ C31_Conforms T := by
-  intro h
-  have h1 := h c chunks
-  unfold Agrees at h1
-  cases hr : rfcDecode T c chunks.flatten with
-  | ok p => rw [hr] at h1; simp only [] at h1; rw [hc] at h1; exact absurd h1.1 (by simp)
-  | error e => rw [hr] at h1; exact h1.2 hc
 
 /-! Facts about the tables extracted on this run (finite, checked by the kernel). -/
 
@@ -38,24 +31,21 @@ theorem C31_table_digests : staticDigest T.static = 2989562081 ∧ codesDigest (
 
 theorem C31_tables_ok : TablesOk T := ⟨C31_table_prefix_free, C31_table_pad_ok, C31_table_eos⟩
 
-/-- **Huffman strings, partial conformance**: on every string the RFC 7541 §5.2 reference accepts
-    (codes, then at most 7 bits of EOS-prefix padding, no EOS), `huffmanDecode` returns the same octets. -/
-theorem C31_huffman_conforms_partial (v s : List Nat) (h : rfcHuff T v = .ok s) :
-    huffmanDecode T 0 v = .ok s :=
-  huffman_agrees_of_rfc_ok C31_tables_ok v s h
+/-- **Huffman strings conform to RFC 7541 §5.2 (full)**: `huffmanDecode` (byte-wise trie walk, tail loop, final
+    checks, as coded) accepts exactly the strings the independent bit-level reference accepts — codes, then at
+    most 7 bits of padding that is a prefix of EOS, no EOS — with the same octets … -/
+theorem C31_huffman_conforms (v s : List Nat) : huffmanDecode T 0 v = .ok s ↔ rfcHuff T v = .ok s :=
+  huffman_iff_rfc C31_tables_ok v s
+
+/-- … and answers ErrInvalidHuffman exactly on the strings the reference rejects (padding > 7 bits, padding not
+    a prefix of EOS, EOS inside the string).  The model has no panic outcome left in `huffmanDecode`. -/
+theorem C31_huffman_rejects (v : List Nat) : huffmanDecode T 0 v = .error .invalid ↔ ∃ e, rfcHuff T v = .error e :=
+  huffman_err_iff_rfc C31_tables_ok v
 
 /-- non-vacuity: `07` is the canonical coding of "0"; the RFC C.4.1 name `www.example.com` -/
 example : rfcHuff T [0x07] = .ok [48] := by decide +kernel
 example : rfcHuff T [0xf1, 0xe3, 0xc2, 0xe5, 0xf2, 0x3a, 0x6b, 0xa0, 0xab, 0x90, 0xf4, 0xff] =
     .ok [119, 119, 119, 46, 101, 120, 97, 109, 112, 108, 101, 46, 99, 111, 109] := by decide +kernel
-
-/-- consequently every error (and every panic) of `huffmanDecode` is on a string the RFC rejects:
-    no spurious Huffman errors -/
-theorem C31_huffman_error_sound_partial (v : List Nat) (e : HErr) (h : huffmanDecode T 0 v = .error e) :
-    ∃ e', rfcHuff T v = .error e' := by
-  cases hr : rfcHuff T v with
-  | error e' => exact ⟨e', rfl⟩
-  | ok s => rw [C31_huffman_conforms_partial v s hr] at h; cases h
 
 /-- index bounds: `Decoder.at` answers exactly for 1 ≤ i ≤ 61 + (dynamic entries) -/
 theorem C31_index_bounds (d : Dec) (i : Nat) :
@@ -90,34 +80,97 @@ theorem C31_size_update_bound (d d' : Dec) (buf rest : List Nat) (em : Option HF
 
 def cfg0 : Cfg := { maxSize := 4096, allowed := 4096, maxStr := 0 }
 
-/-- literal field whose Huffman-coded name is `'0' '0' EOS` (`00 3f ff ff ff`): the tail loop of
-    huffmanDecode follows a nil child — a panic — where RFC 7541 §5.2 demands a decoding error -/
-theorem C31_witness_eos_panic :
-    (decodeChunks T cfg0 [[0x00, 0x85, 0x00, 0x3f, 0xff, 0xff, 0xff]]).err = some .crash ∧
+/-! The inputs the unfixed huffmanDecode mishandled (kept in corpus/C31): now decoding errors, as in the reference. -/
+
+/-- name `00 3f ff ff ff` = `'0' '0' EOS` (was: nil dereference, panic) -/
+theorem C31_fixed_eos :
+    (decodeChunks T cfg0 [[0x00, 0x85, 0x00, 0x3f, 0xff, 0xff, 0xff]]).err = some .huffman ∧
     rfcDecode T cfg0 [0x00, 0x85, 0x00, 0x3f, 0xff, 0xff, 0xff] = .error .huffEos := by
   decide +kernel
 
-/-- name `07 ff` = `'0'` followed by 11 one-bits of padding: accepted (RFC: padding > 7 bits is an error) -/
-theorem C31_witness_pad_long :
-    (decodeChunks T cfg0 [[0x00, 0x82, 0x07, 0xff, 0x00]]).err = none ∧
-    (decodeChunks T cfg0 [[0x00, 0x82, 0x07, 0xff, 0x00]]).fields = [{ name := [48], value := [] }] ∧
-    rfcDecode T cfg0 [0x00, 0x82, 0x07, 0xff, 0x00] = .error .huffPadLong := by
+/-- name `07 ff` = `'0'` + 11 one-bits, and `ff` = 8 one-bits (were: accepted) -/
+theorem C31_fixed_pad_long :
+    (decodeChunks T cfg0 [[0x00, 0x82, 0x07, 0xff, 0x00]]).err = some .huffman ∧
+    rfcDecode T cfg0 [0x00, 0x82, 0x07, 0xff, 0x00] = .error .huffPadLong ∧
+    (decodeChunks T cfg0 [[0x00, 0x81, 0xff, 0x00]]).err = some .huffman := by
   decide +kernel
 
-/-- name `00` = `'0'` followed by three ZERO bits of padding: accepted (RFC: padding must be the MSBs of EOS) -/
-theorem C31_witness_pad_zero :
-    (decodeChunks T cfg0 [[0x00, 0x81, 0x00, 0x00]]).err = none ∧
+/-- name `00` = `'0'` + three ZERO bits of padding (was: accepted) -/
+theorem C31_fixed_pad_zero :
+    (decodeChunks T cfg0 [[0x00, 0x81, 0x00, 0x00]]).err = some .huffman ∧
     rfcDecode T cfg0 [0x00, 0x81, 0x00, 0x00] = .error .huffPadBits := by
   decide +kernel
 
-/-- name `ff` = 8 bits of padding and no symbol: accepted as the empty name -/
-theorem C31_witness_pad_eight :
-    (decodeChunks T cfg0 [[0x00, 0x81, 0xff, 0x00]]).err = none ∧
-    rfcDecode T cfg0 [0x00, 0x81, 0xff, 0x00] = .error .huffPadLong := by
-  decide +kernel
+/-- **C31, block-level conformance for every byte string** (every table setting; SetMaxStringLength not used): the
+    decoder as coded agrees with the RFC 7541 reference — same fields (names, values, never-index flags) and same
+    final dynamic table when the reference accepts; an error and no panic when it rejects (Huffman padding / EOS
+    rules, truncated block, index outside the tables, size update above the allowed maximum, integer with more
+    than 9 continuation octets). -/
+theorem C31_conforms_whole_partial (c : Cfg) (hc : c.maxStr = 0) (bytes : List Nat) :
+    Agrees (decodeChunks T c [bytes]) (rfcDecode T c bytes) := by
+  have hd : c.dec.maxStrLen = 0 := hc
+  have hrel := rfcBlock_rel C31_tables_ok (bytes.length + 1) c.dec bytes [] hd (by omega)
+  have hrd : rfcDecode T c bytes = rfcBlock T c.dec.allowed 0 (bytes.length + 1) c.dec.tab bytes [] := by
+    unfold rfcDecode; rw [hc]; rfl
+  rw [← hrd] at hrel
+  have hfeed : feed T { dec := c.dec } [bytes] =
+      (if bytes.length = 0 then (({ dec := c.dec } : DState), none)
+       else writeLoop T (bytes.length + 1) c.dec bytes []) := by
+    by_cases h0 : bytes.length = 0
+    · simp [feed, DState.write, h0]
+    · simp only [feed, DState.write, if_neg h0, List.nil_append]
+      cases writeLoop T (bytes.length + 1) c.dec bytes [] with
+      | mk s e => cases e <;> rfl
+  have hw0 : bytes.length = 0 → writeLoop T (bytes.length + 1) c.dec bytes [] = ({ dec := c.dec }, none) := by
+    intro h0
+    have : bytes = [] := List.eq_nil_of_length_eq_zero h0
+    subst this; simp [writeLoop]
+  have hfeed' : feed T { dec := c.dec } [bytes] = writeLoop T (bytes.length + 1) c.dec bytes [] := by
+    rw [hfeed]; split
+    · rename_i h0; rw [hw0 h0]
+    · rfl
+  unfold Agrees decodeChunks
+  rw [hfeed']
+  cases hr : rfcDecode T c bytes with
+  | ok pr =>
+    obtain ⟨fs, t⟩ := pr
+    rw [hr] at hrel
+    obtain ⟨d', hw, ht⟩ := hrel
+    rw [hw]
+    simp [DState.close, ht]
+  | error e =>
+    rw [hr] at hrel
+    rcases hrel with ⟨rfl, s, hw, hs⟩ | ⟨hnt, s, hw⟩
+    · rw [hw]
+      have hpos : s.save.length > 0 := List.length_pos_iff.mpr hs
+      simp [DState.close, hpos]
+    · rw [hw]
+      simp only []
+      refine ⟨rfl, ?_⟩
+      cases e <;> simp [toD]
+
+/-- **split invariance, partial (SetMaxStringLength not used)**: for every table setting and every way of cutting
+    the block into `Write` calls (empty chunks included), the fields emitted, the error (if any) and the
+    final dynamic table are those of one `Write` of the whole block. -/
+theorem C31_split_invariant_partial (c : Cfg) (hc : c.maxStr = 0) (chunks : List (List Nat)) :
+    decodeChunks T c chunks = decodeChunks T c [chunks.flatten] := by
+  have h0 : writeLoop T 1 c.dec [] [] = ({ dec := c.dec }, none) := by simp [writeLoop]
+  have hd : c.dec.maxStrLen = 0 := hc
+  have e1 := feed_eq T chunks { dec := c.dec } 1 c.dec [] [] hd (by simp) h0
+  have e2 := feed_eq T [chunks.flatten] { dec := c.dec } 1 c.dec [] [] hd (by simp) h0
+  unfold decodeChunks
+  rw [e1, e2]
+  simp
+
+/-- **C31 for every setting without SetMaxStringLength**: all byte strings, all table settings, every split
+    delivery — the statement of `C31_Conforms` restricted to `maxStr = 0`. -/
+theorem C31_conforms_partial (c : Cfg) (hc : c.maxStr = 0) (chunks : List (List Nat)) :
+    Agrees (decodeChunks T c chunks) (rfcDecode T c chunks.flatten) := by
+  rw [C31_split_invariant_partial c hc chunks]
+  exact C31_conforms_whole_partial c hc chunks.flatten
 
 /-- **split invariance at full strength** (does NOT hold when SetMaxStringLength is used, witness below;
-    for maxStr = 0 it is exercised by the correspondence run at every split point, not proved) -/
+    for maxStr = 0 it is `C31_split_invariant_partial`) -/
 def C31_SplitInvariant (T : Tables) : Prop :=
   ∀ (c : Cfg) (chunks : List (List Nat)), decodeChunks T c chunks = decodeChunks T c [chunks.flatten]
 
@@ -125,11 +178,13 @@ def vi127 : List Nat := [127, 128, 128, 128, 128, 128, 128, 128, 128, 0]
 def splitBlk : List Nat := [0] ++ vi127 ++ List.replicate 127 97 ++ vi127 ++ List.replicate 127 97
 def cfg127 : Cfg := { maxSize := 4096, allowed := 4096, maxStr := 127 }
 
-/-- a valid 275-octet literal field is accepted in one Write but rejected (ErrStringLength) when its last
-    octet arrives in a second Write: the `len(buf) > 2*(maxStrLen+8)` guard fires on the incomplete buffer -/
+/-- a valid 275-octet literal field is accepted in one Write (and by the reference) but rejected (ErrStringLength)
+    when its last octet arrives in a second Write: the `len(buf) > 2*(maxStrLen+8)` guard fires on the incomplete
+    buffer (known finding `split-differs`) -/
 theorem C31_witness_split_differs :
     (decodeChunks T cfg127 [splitBlk]).err = none ∧
-    (decodeChunks T cfg127 [splitBlk.take 274, splitBlk.drop 274]).err = some .strLen := by
+    (decodeChunks T cfg127 [splitBlk.take 274, splitBlk.drop 274]).err = some .strLen ∧
+    (rfcDecode T cfg127 splitBlk).toOption.isSome = true := by
   decide +kernel
 
 theorem C31_not_split_invariant : ¬ C31_SplitInvariant T := by
@@ -141,10 +196,25 @@ theorem C31_not_split_invariant : ¬ C31_SplitInvariant T := by
   have hw := C31_witness_split_differs
   rw [h1] at hw
   rw [hw.1] at hw
-  exact absurd hw.2 (by simp)
+  exact absurd hw.2.1 (by simp)
 
-/-- hence the full-strength statement is false for the tables of the current tree -/
+theorem C31_not_conforms_of (T : Tables) (c : Cfg) (chunks : List (List Nat)) (e : DErr)
+    (h1 : (decodeChunks T c chunks).err = some e) (h2 : (rfcDecode T c chunks.flatten).toOption.isSome = true) :
+    ¬ C31_Conforms T := by
+  intro h
+  have h3 := h c chunks
+  unfold Agrees at h3
+  cases hr : rfcDecode T c chunks.flatten with
+  | error e' => rw [hr] at h2; simp [Except.toOption] at h2
+  | ok p => rw [hr] at h3; simp only [] at h3; rw [h1] at h3; exact absurd h3.1 (by simp)
+
+theorem C31_witness_split_ref :
+    (rfcDecode T cfg127 [splitBlk.take 274, splitBlk.drop 274].flatten).toOption.isSome = true := by
+  decide +kernel
+
+/-- hence the full-strength statement (all settings) is false: with SetMaxStringLength the split delivery errors
+    on a block the reference accepts -/
 theorem C31_not_conforms : ¬ C31_Conforms T :=
-  C31_not_conforms_of_crash T cfg0 _ C31_witness_eos_panic.1
+  C31_not_conforms_of T cfg127 _ _ C31_witness_split_differs.2.1 C31_witness_split_ref
 
 end BfeVerif.C31
